@@ -509,7 +509,72 @@ pub fn c15_worker(args: &Args, w: &Worker) -> i32 {
             }
         }
     }
+    // E1b: every numeric argument of go and of setoption over ALL values 0..=300 and every
+    // power of two up to 2^128 with its two neighbours (the boundaries of u8/u16/u32/u64/u128 and
+    // of any narrower type a parser might use), negative values included: parser only
+    let mut values: Vec<String> = (0..=300u32).map(|v| v.to_string()).collect();
+    for e in 8..=128u32 {
+        // decimal strings of 2^e - 1, 2^e, 2^e + 1 without 256-bit arithmetic
+        for delta in [-1i8, 0, 1] {
+            values.push(pow2_decimal(e, delta));
+        }
+    }
+    for v in ["-1", "-128", "-129", "-32769", "-2147483649", "-9223372036854775809"] {
+        values.push(v.to_string());
+    }
+    values.sort();
+    values.dedup();
+    let shapes: Vec<Vec<&str>> = vec![
+        vec!["go", "depth"], vec!["go", "nodes"], vec!["go", "mate"], vec!["go", "movetime"], vec!["go", "movestogo"],
+        vec!["go", "wtime"], vec!["go", "btime"], vec!["go", "winc"], vec!["go", "binc"],
+        vec!["go", "wtime", "1000", "btime", "1000", "winc"], vec!["go", "wtime", "1000", "btime", "1000", "movestogo"],
+        vec!["setoption", "name", "Hash", "value"],
+    ];
+    for shape in &shapes {
+        for v in &values {
+            total += 1;
+            if total % w.nshards as u64 != w.shard as u64 {
+                continue;
+            }
+            let mut toks: Vec<&str> = shape.clone();
+            toks.push(v);
+            w.count("numeric_argument_lines_parsed", 1);
+            c15_guard(&toks.join(" "));
+            if std::panic::catch_unwind(|| crate::uci::rce_verif_parse(&toks)).is_err() {
+                w.count("parser_panics", 1);
+                let line = toks.join(" ");
+                w.violation(
+                    &format!("parse-num|{}", shape.join(" ")),
+                    &format!("the command parser panics on the line '{line}' ({}) - on the main thread this kills the engine", super::searchrun::last_panic()),
+                    &obj(vec![("kind", s("parse")), ("line", s(line))]),
+                );
+            }
+        }
+    }
     w.done()
+}
+
+/// decimal string of 2^e + delta (delta in -1..=1), by schoolbook doubling
+fn pow2_decimal(e: u32, delta: i8) -> String {
+    let mut digits: Vec<u8> = vec![1]; // little endian
+    for _ in 0..e {
+        let mut carry = 0;
+        for d in digits.iter_mut() {
+            let x = *d * 2 + carry;
+            *d = x % 10;
+            carry = x / 10;
+        }
+        if carry > 0 {
+            digits.push(carry);
+        }
+    }
+    if delta > 0 {
+        digits[0] += 1; // 2^e is even and does not end in 9
+    } else if delta < 0 {
+        // 2^e never ends in 0, so no borrow
+        digits[0] -= 1;
+    }
+    digits.iter().rev().map(|d| (b'0' + d) as char).collect()
 }
 
 /// Groups equivalent failing lines: the command word plus the shape of what follows
